@@ -7,6 +7,7 @@ from dataclasses import dataclass
 
 from .opcodes import OpCode
 from .compiler import CompiledFunction
+from . import values as values_module
 from .values import (
     UNDEFINED,
     NULL,
@@ -223,11 +224,16 @@ class VM:
         )
         self.call_stack.append(frame)
 
+        # While this interpreter runs, built-ins convert objects to primitives through it
+        outer_hook = values_module.to_primitive_hook
+        values_module.to_primitive_hook = self._to_primitive
         try:
             return self._execute()
         except MemoryError:
             # The host ran out of memory before the approximate accounting noticed
             raise MemoryLimitError("Memory limit exceeded: allocation failed")
+        finally:
+            values_module.to_primitive_hook = outer_hook
 
     def _check_limits(self) -> None:
         """Check memory and time limits."""
